@@ -265,7 +265,7 @@ def NoStraddler (s : Int) : AnyTier Int → Prop
 
 /-- `insertSpace` of a well-formed tier of either class: whenever it succeeds the result is well-formed, starts where
 the tier started and ends exactly `d` later; it succeeds unless the mode is `error` and an interval straddles `s` -/
-theorem anyinsert_spec {t : AnyTier Int} (hwf : AnyWF t) {s d : Int} (hd : 0 < d) (hlo : t.lo ≤ s) (m : SpaceMode) :
+theorem anyinsert_spec {t : AnyTier Int} (hwf : AnyWF t) {s d : Int} (hd : 0 < d) (m : SpaceMode) :
     (∀ t', t.insertSpace s d m = .ok t' → AnyWF t' ∧ t'.lo = t.lo ∧ t'.hi = t.hi + d) ∧
     ((m = .error → NoStraddler s t) → ∃ t', t.insertSpace s d m = .ok t') := by
   cases t with
@@ -273,7 +273,7 @@ theorem anyinsert_spec {t : AnyTier Int} (hwf : AnyWF t) {s d : Int} (hd : 0 < d
     have key : (m = .error → ∀ iv ∈ t.es, ¬ C08.Straddles s iv) →
         ∃ t', t.insertSpace s d m = .ok t' ∧ t'.WF ∧ t'.lo = t.lo ∧ t'.hi = t.hi + d := by
       intro hm
-      obtain ⟨t', e1, e2, _, _, e5, e6⟩ := C08.insert_spec t hwf s d hd hlo m hm
+      obtain ⟨t', e1, e2, _, _, e5, e6⟩ := C08.insert_spec t hwf s d hd m hm
       exact ⟨t', e1, e2, e5, e6⟩
     constructor
     · intro t' h
@@ -297,7 +297,7 @@ theorem anyinsert_spec {t : AnyTier Int} (hwf : AnyWF t) {s d : Int} (hd : 0 < d
       obtain ⟨t', e1, _⟩ := key hm
       exact ⟨.I t', by simp only [AnyTier.insertSpace, e1]; rfl⟩
   | P t =>
-    obtain ⟨t', e1, e2, _, _, e5, e6⟩ := C08.pinsert_spec t hwf s d hd hlo
+    obtain ⟨t', e1, e2, _, _, e5, e6⟩ := C08.pinsert_spec t hwf s d hd
     constructor
     · intro t'' h
       obtain ⟨z, hz, rfl⟩ := map_ok h
@@ -448,12 +448,14 @@ theorem eraseRegion_validate_ok (g : Tg Int) (hwf : ∀ t ∈ g.tiers, AnyWF t) 
 
 /-! ## (4) insertSpace -/
 
-/-- **insertSpace_validate**: `Textgrid.insertSpace(s, d, collisionMode)` with `d > 0` and `s` not before the start,
+/-- **insertSpace_validate**: `Textgrid.insertSpace(s, d, collisionMode)` with `d > 0` and ANY `s` (the former
+hypothesis "`s` not before the start" was a convenience: for `s` before the start every entry moves by `d`, exactly as for
+`s` at the start — replayed on the class, `Textgrid(2,10)` with `s = 0, 1`: valid result `[2, 11]`),
 on a valid textgrid of well-formed tiers, in any of the four modes: if it returns a textgrid then that textgrid
 validates, it starts where the old one started and ends exactly `d` later, and every tier is well-formed and has
 exactly the new textgrid's span -/
 theorem insertSpace_validate (g : Tg Int) (hwf : ∀ t ∈ g.tiers, AnyWF t) (hv : g.validate = true) (s d : Int)
-    (hd : 0 < d) (hs : ∀ lo, g.lo = some lo → lo ≤ s) (m : SpaceMode)
+    (hd : 0 < d) (m : SpaceMode)
     (g' : Tg Int) (h : g.insertSpace s d m = .ok g') :
     g'.validate = true ∧
     g'.lo = g.lo ∧ g'.hi = g.hi.map (· + d) ∧
@@ -463,8 +465,7 @@ theorem insertSpace_validate (g : Tg Int) (hwf : ∀ t ∈ g.tiers, AnyWF t) (hv
   have hper : ∀ t ∈ g.tiers, ∀ t', t.insertSpace s d m = .ok t' →
       AnyWF t' ∧ t'.lo = t.lo ∧ t'.hi = t.hi + d := by
     intro t ht t' ht'
-    obtain ⟨e1, _, _⟩ := hsp t ht
-    exact (anyinsert_spec (hwf t ht) hd (hs _ e1) m).1 t' ht'
+    exact (anyinsert_spec (hwf t ht) hd m).1 t' ht'
   obtain ⟨r1, r2, r3, r4⟩ := tgfold_spans (·.insertSpace s d m) _ g.tiers _ _ g' h (by
     intro t ht t' ht'
     obtain ⟨e1, e2, _⟩ := hsp t ht
@@ -480,13 +481,12 @@ theorem insertSpace_validate (g : Tg Int) (hwf : ∀ t ∈ g.tiers, AnyWF t) (hv
 
 /-- the same with the old span named: span `[lo, hi]` becomes `[lo, hi + d]` -/
 theorem insertSpace_validate_span (g : Tg Int) (hwf : ∀ t ∈ g.tiers, AnyWF t) (hv : g.validate = true) (s d : Int)
-    (hd : 0 < d) (lo hi : Int) (hlo : g.lo = some lo) (hhi : g.hi = some hi) (hs : lo ≤ s) (m : SpaceMode)
+    (hd : 0 < d) (lo hi : Int) (hlo : g.lo = some lo) (hhi : g.hi = some hi) (m : SpaceMode)
     (g' : Tg Int) (h : g.insertSpace s d m = .ok g') :
     g'.validate = true ∧
     g'.lo = some lo ∧ g'.hi = some (hi + d) ∧
     ∀ t' ∈ g'.tiers, t'.lo = lo ∧ t'.hi = hi + d ∧ AnyWF t' := by
-  obtain ⟨r1, r2, r3, r4⟩ := insertSpace_validate g hwf hv s d hd
-    (fun l hl => by rw [hlo] at hl; cases hl; exact hs) m g' h
+  obtain ⟨r1, r2, r3, r4⟩ := insertSpace_validate g hwf hv s d hd m g' h
   have r3' : g'.hi = some (hi + d) := by rw [r3, hhi]; rfl
   refine ⟨r1, r2.trans hlo, r3', ?_⟩
   intro t' ht'
@@ -497,17 +497,16 @@ theorem insertSpace_validate_span (g : Tg Int) (hwf : ∀ t ∈ g.tiers, AnyWF t
 
 /-- … and the call does return a textgrid unless the mode is `error` and some interval straddles `s` -/
 theorem insertSpace_validate_ok (g : Tg Int) (hwf : ∀ t ∈ g.tiers, AnyWF t) (hv : g.validate = true) (s d : Int)
-    (hd : 0 < d) (hs : ∀ lo, g.lo = some lo → lo ≤ s) (m : SpaceMode)
+    (hd : 0 < d) (m : SpaceMode)
     (hm : m = .error → ∀ t ∈ g.tiers, NoStraddler s t) :
     ∃ g', g.insertSpace s d m = .ok g' ∧ g'.validate = true ∧
       g'.lo = g.lo ∧ g'.hi = g.hi.map (· + d) ∧
       ∀ t' ∈ g'.tiers, g'.lo = some t'.lo ∧ g'.hi = some t'.hi ∧ AnyWF t' := by
   obtain ⟨hnd, hsp⟩ := (validate_iff g).1 hv
   obtain ⟨ts, hts⟩ := mapM_ok_of_forall (·.insertSpace s d m) g.tiers (fun t ht => by
-    obtain ⟨e1, _, _⟩ := hsp t ht
-    exact (anyinsert_spec (hwf t ht) hd (hs _ e1) m).2 (fun hme => hm hme t ht))
+    exact (anyinsert_spec (hwf t ht) hd m).2 (fun hme => hm hme t ht))
   obtain ⟨g', e, _⟩ := (tgop_ok g hnd ts).2.2.1 s d m hts
-  exact ⟨g', e, insertSpace_validate g hwf hv s d hd hs m g' e⟩
+  exact ⟨g', e, insertSpace_validate g hwf hv s d hd m g' e⟩
 
 /-! ## non-vacuity, and why lax crop is excluded -/
 
@@ -561,14 +560,12 @@ example : ∃ g', exG.eraseRegion 6 15 true = .ok g' ∧ g'.validate = true ∧ 
   exact ⟨g', e, v, l, h⟩
 
 example : ∃ g', exG.insertSpace 3 5 .split = .ok g' ∧ g'.validate = true ∧ g'.lo = some 0 ∧ g'.hi = some 15 := by
-  obtain ⟨g', e, v, l, h, _⟩ := insertSpace_validate_ok exG exG_wf exG_valid 3 5 (by decide)
-    (fun lo hl => by cases hl; decide) .split (fun h => by cases h)
+  obtain ⟨g', e, v, l, h, _⟩ := insertSpace_validate_ok exG exG_wf exG_valid 3 5 (by decide) .split (fun h => by cases h)
   exact ⟨g', e, v, l, h⟩
 
 /-- mode `error` with no straddler: `s = 4` is an interval end -/
 example : ∃ g', exG.insertSpace 4 5 .error = .ok g' ∧ g'.validate = true ∧ g'.hi = some 15 := by
-  obtain ⟨g', e, v, _, h, _⟩ := insertSpace_validate_ok exG exG_wf exG_valid 4 5 (by decide)
-    (fun lo hl => by cases hl; decide) .error (by
+  obtain ⟨g', e, v, _, h, _⟩ := insertSpace_validate_ok exG exG_wf exG_valid 4 5 (by decide) .error (by
       intro _ t ht
       simp only [exG, List.mem_cons, List.not_mem_nil, or_false] at ht
       rcases ht with rfl | rfl
